@@ -12,7 +12,7 @@ extern "C" size_t __sanitizer_get_current_allocated_bytes(void);   // exported b
 #include "wrapOther.h"
 extern "C" void CAP_ShroudCopyStringAndFree(CAP_SHROUD_array *data, char *c_var, size_t c_var_len);
 extern "C" void CAP_ShroudCopyArray(CAP_SHROUD_array *data, void *c_var, size_t c_var_size);
-struct H { int type; CAP_SHROUD_capsule_data cap; CAP_SHROUD_array arr; };   // type 1 Obj, 2 Other, 3 ints, 4 string, 6 malloc'ed char *
+struct H { int type; CAP_SHROUD_capsule_data cap; CAP_SHROUD_array arr; };   // type 1 Obj, 2 Other, 3 ints, 4 string, 6 malloc'ed char *, 7 new'ed std::string, 8 malloc'ed doubles
 static std::vector<H> hs;
 static CAP_SHROUD_capsule_data *capsule(H &h) { return (h.type == 1 || h.type == 2) ? &h.cap : &h.arr.cxx; }
 int main() {
@@ -32,6 +32,8 @@ int main() {
       else if (a == 2) { CAP_Other c; if (b % 2) CAP_Other_ctor(&c); else CAP_make_other(&c); h.cap.addr = c.addr; h.cap.idtor = c.idtor; }
       else if (a == 3) { CAP_newints_bufferify(&h.arr, 3 + b % 4); }
       else if (a == 6) { CAP_dupname_bufferify(b, &h.arr); }
+      else if (a == 7) { CAP_newstr_bufferify(b, &h.arr); }
+      else if (a == 8) { CAP_newdbls_bufferify(&h.arr, 2 + b % 3); }
       else if (a == 5) { h.type = 1; CAP_Obj c; CAP_acquire(b, &c); h.cap.addr = c.addr; h.cap.idtor = c.idtor; }
       else { CAP_Obj t; CAP_borrow(b & 3, &t); CAP_name_bufferify(&t, &h.arr); }
       hs.push_back(h);
@@ -46,6 +48,7 @@ int main() {
       else if (h.type == 2) { CAP_Other c; c.addr = h.cap.addr; c.idtor = h.cap.idtor; val = CAP_Other_get(&c); }
       else if (h.type == 3) { val = ((int *)h.arr.cxx.addr)[0]; }
       else if (h.type == 6) { val = std::strlen((const char *)h.arr.cxx.addr); }
+      else if (h.type == 8) { val = (long)((double *)h.arr.cxx.addr)[0]; }
       else { val = ((volatile unsigned char *)h.arr.cxx.addr)[8] >= 0; }   // a read inside the std::string object (instrumented here; libstdc++ is not)
       if ((h.type == 1 || h.type == 2) && val == -777) { std::fflush(stdout); std::abort(); }   // the object says it has been released
     } else if (!std::strcmp(cmd, "dtor")) {
@@ -65,7 +68,7 @@ int main() {
       if (was_ints) --counters.ints_live;
       // the released handle is cleared (this is what makes a second release a no-op) and a caller-owned heap result was given back
       if (capsule(h)->addr != 0 || capsule(h)->idtor != 0) { std::printf("op %d notcleared\n", opno); std::fflush(stdout); return 5; }
-      if (owned && (h.type == 3 || h.type == 4 || h.type == 6) && !(after < before)) { std::printf("op %d notfreed\n", opno); std::fflush(stdout); return 5; }
+      if (owned && (h.type == 3 || h.type == 4 || h.type == 6 || h.type == 7 || h.type == 8) && !(after < before)) { std::printf("op %d notfreed\n", opno); std::fflush(stdout); return 5; }
     } else if (!std::strcmp(cmd, "tmp")) {
       // wrappers that convert arguments through temporary buffers: a = text / element count, b = room in the caller's buffer.
       // The caller's buffers are exact-size heap blocks, so that AddressSanitizer sees any access beyond them; afterwards
